@@ -27,6 +27,11 @@ CHECKS = {
     note="Confidence in [0,1] is the scoring model's contract (oracle assumption, checked on every scored row). Floats enter the model only as order-preserving integer keys. Trusted: Coq kernel+vm_compute, recorders, numpy/xgboost as oracle.",
     technique="Coq proof over the pipeline model's last stage + threshold-boundary correspondence with float64 keys",
     design="7/C13"),
+ "C14": dict(
+    text="Machine-checked proof (Coq) + metamorphic correspondence. Proved for every oracle, database and fuel: if two spellings/orders of a reaction give composition dictionaries that agree entry-wise (any entry order; this is what C07's permutation-invariance and additivity deliver for re-ordered atoms and molecules, kekulised forms and atom maps) and equal carbon sums, then the input check answers the same, the comparator verdict and the signed re-classification are the same, the difference formulas agree entry-wise, the same number of water molecules is inserted, and the solver returns the identical ranked list of completions (dfs/match_all ignore entry order) -- so the same molecules are proposed for the same side. NOT proved, decided by the metamorphic runs only: RuleConstraint's redox rewrite tests the side strings for marker substrings, which is order sensitive exactly where C02's guard fails (known finding C14/marker-position-sensitive); reagent post-processing is excluded by the statement. Correspondence: input-balanced / rule-based corpus and generated rows and marker-stream reactions re-run as random-SMILES, kekulised, randomly atom-mapped and shuffled variants; verdict and added canonical multisets compared; the theorems' hypothesis is checked on the recorded oracle tables of every pair; all variant batches replayed in the model inside Coq.",
+    note="PARTIAL: the constraint rewrite's spelling sensitivity is outside the theorems. Trusted: Coq kernel+vm_compute, recorders, RDKit for variant generation and the canonical-multiset oracle.",
+    technique="Coq proof (solver and comparator invariant under entry order of the composition dictionaries) + metamorphic differential runs",
+    design="7/C14"),
  "C18": dict(
     text="Machine-checked proof (Coq): for every completed batch of the pipeline model, reaction_cnt = number of input rows, balanced_cnt = number of rows labelled input-balanced, confident_cnt = number of rows solved by the MCS method, mcs_applied = number of rows not attributed to input-balanced/rule-based, rb_solved <= rb_applied, mcs_solved <= mcs_applied. Correspondence: every recorded real batch replayed in the model with all seven counters compared; merged statistics of multi-batch runs checked against rows by an independent oracle.",
     note="The two lower bounds (solved count >= rows finally attributed to the method) are checked by the oracle only, not proved. Lost batches (C05's finding) are outside completed runs. Trusted: Coq kernel+vm_compute, recorders, harness.",
